@@ -4,6 +4,7 @@ import ScriggoV.Lemmas.CompileCond
 import ScriggoV.Model.Eval
 import ScriggoV.Lemmas.Struct
 import ScriggoV.Lemmas.FieldIndex
+import ScriggoV.Lemmas.CommaOk
 /-! # C01, stage one — the integer core of "interpreted programs behave like gc"
 
 `Gen/VMInt.lean` holds, regenerated from /repo on every check, the integer opcode bodies of
@@ -620,5 +621,79 @@ example : -- the promoted field first, then the embedded struct itself: two entr
       .ok ([.field 0, .field 1, .field 2, .setField 2, .field 1], [[0, 0], [0], [0, 1]]) := rfl
 
 end Fields
+
+/-! ## the value result of a comma-ok / may-fail instruction: zero on the failing path
+
+`Gen/CommaOk.lean` is regenerated from run.go / registers.go / emitter_util.go on every check: the
+statements of `OpAssert` (per `reflect.Kind` of the asserted type), `OpMapIndex` and `OpReceive` that
+decide what reaches the destination operand `c`, the bank `setFromReflectValue` writes per kind, the
+bank the emitter allocates per kind. Over these definitions, for EVERY kind, EVERY previous content
+of the register file and EVERY destination register: -/
+namespace CommaOk
+open ScriggoV.CommaOk ScriggoV.Gen.CommaOk
+
+/-- **after a failed comma-ok assertion the destination holds the zero value, whatever the
+register held before** (`s, ok := x.(T)` with `x` of another type, or nil), in the bank the emitter
+reads for a type of this kind; and no other register of the frame is touched. `v` is the operand's
+dynamic value: it is not looked at on this path. -/
+theorem assert_fail_zero (k : RKind) (rf : CommaOk.RegFile) (v c : Nat) :
+    ∃ rf', CommaOk.run (assertBranch k) k false v c rf = some rf' ∧ Writes rf rf' (emitterBank k) c 0 :=
+  run_of_checkForm (f := .assert) (s := .zero)
+    (forall_kinds (p := checkForm .assert false .zero) (by decide) k) v c rf
+
+/-- on the successful path the destination holds the asserted value -/
+theorem assert_ok_value (k : RKind) (rf : CommaOk.RegFile) (v c : Nat) :
+    ∃ rf', CommaOk.run (assertBranch k) k true v c rf = some rf' ∧ Writes rf rf' (emitterBank k) c v :=
+  run_of_checkForm (f := .assert) (s := .v)
+    (forall_kinds (p := checkForm .assert true .v) (by decide) k) v c rf
+
+/-- **`v, ok := m[k]` (and `v := m[k]`) with the key absent: the zero value of the element type** -/
+theorem mapIndex_absent_zero (k : RKind) (rf : CommaOk.RegFile) (v c : Nat) :
+    ∃ rf', CommaOk.run mapIndexBody k false v c rf = some rf' ∧ Writes rf rf' (emitterBank k) c 0 :=
+  run_of_checkForm (f := .mapIndex) (s := .zero)
+    (forall_kinds (p := checkForm .mapIndex false .zero) (by decide) k) v c rf
+
+theorem mapIndex_present_value (k : RKind) (rf : CommaOk.RegFile) (v c : Nat) :
+    ∃ rf', CommaOk.run mapIndexBody k true v c rf = some rf' ∧ Writes rf rf' (emitterBank k) c v :=
+  run_of_checkForm (f := .mapIndex) (s := .v)
+    (forall_kinds (p := checkForm .mapIndex true .v) (by decide) k) v c rf
+
+/-- **`v, ok := <-ch` (and `v := <-ch`) on a closed channel: the zero value of the element type**
+(reflect's `Recv` / `Select` hand out the zero Value then: `Src.recv`; the obligation on the code is
+that the destination is written on this path too) -/
+theorem receive_closed_zero (k : RKind) (rf : CommaOk.RegFile) (v c : Nat) :
+    ∃ rf', CommaOk.run receiveBody k false v c rf = some rf' ∧ Writes rf rf' (emitterBank k) c 0 :=
+  run_of_checkForm (f := .receive) (s := .zero)
+    (forall_kinds (p := checkForm .receive false .zero) (by decide) k) v c rf
+
+theorem receive_value (k : RKind) (rf : CommaOk.RegFile) (v c : Nat) :
+    ∃ rf', CommaOk.run receiveBody k true v c rf = some rf' ∧ Writes rf rf' (emitterBank k) c v :=
+  run_of_checkForm (f := .receive) (s := .v)
+    (forall_kinds (p := checkForm .receive true .v) (by decide) k) v c rf
+
+/-- **a site executed again and again** (a loop, a function called several times, the same temporary
+register reused by later statements): with the register file kept from one execution to the next,
+the VM model yields what Go says — the value and `true`, or the zero value and `false`, each time,
+whatever succeeded or failed before and whatever the registers held at the start -/
+theorem vmRun_eq_spec (f : Form) (k : RKind) (c : Nat) (es : List Exec) (rf : CommaOk.RegFile) :
+    vmRun f k c es rf = some (spec es) := by
+  cases f with
+  | assert => exact vmRun_eq_spec_of .assert k c (fun v rf => assert_fail_zero k rf v c) (fun v rf => assert_ok_value k rf v c) es rf
+  | mapIndex => exact vmRun_eq_spec_of .mapIndex k c (fun v rf => mapIndex_absent_zero k rf v c) (fun v rf => mapIndex_present_value k rf v c) es rf
+  | receive => exact vmRun_eq_spec_of .receive k c (fun v rf => receive_closed_zero k rf v c) (fun v rf => receive_value k rf v c) es rf
+
+/-- the emitter and the VM agree on the bank of every kind (`kindToType` / `setFromReflectValue`) -/
+theorem setter_bank_is_emitter_bank (k : RKind) : setterBank k = emitterBank k := by
+  have h := forall_kinds (p := fun k => decide (setterBank k = emitterBank k)) (by decide) k
+  simpa using h
+
+-- non-vacuity: a stale register is really overwritten; and a destination code that writes only on
+-- the successful path (the shape `if ok { vm.setString(c, v.String()) }`) does NOT pass the check
+example : (vmRun .assert .string 3 [⟨true, 7⟩, ⟨false, 0⟩, ⟨true, 9⟩, ⟨false, 0⟩] (fun _ _ => 5)) =
+    some [(7, true), (0, false), (9, true), (0, false)] := by decide
+example : goodWrites ((writes [⟨true, .set .string .v⟩] .string false).getD []) .string .zero = false := by decide
+example : (CommaOk.run [⟨true, .set .string .v⟩] .string false 0 3 (fun _ _ => 5)).map (· .string 3) = some 5 := by decide
+
+end CommaOk
 
 end ScriggoV.C01
